@@ -11,7 +11,7 @@ import (
 var c06Cfg = GenCfg{
 	MinBlocks: 4, MaxBlocks: 32, MinOps: 6, MaxOps: 50,
 	W: map[string]int{"write": 46, "read": 3, "snap": 18, "remove": 6, "revert": 3, "reopen": 6,
-		"reload": 2, "punch": 2, "unmap": 2, "lunmap": 2, "setcp": 2, "markrm": 2, "resize": 1},
+		"reload": 2, "punch": 2, "unmap": 2, "lunmap": 2, "setcp": 2, "markrm": 2, "resize": 1, "delpunch": 2},
 	PunchStart: 80, MaxChainMin: 6, MaxChainMax: 10,
 }
 
@@ -68,7 +68,7 @@ func TestC10(t *testing.T) {
 var c11Cfg = GenCfg{
 	MinBlocks: 4, MaxBlocks: 24, MinOps: 8, MaxOps: 50,
 	W: map[string]int{"write": 30, "snap": 24, "remove": 16, "markrm": 8, "setcp": 6, "rmdirect": 4,
-		"reopen": 4, "revert": 2, "punch": 1, "mode": 2, "read": 2},
+		"reopen": 4, "revert": 2, "punch": 1, "mode": 2, "read": 2, "delpunch": 4},
 	PunchStart: 40, MaxChainMin: 7, MaxChainMax: 12, AllowWO: true, DupNamePct: 20,
 }
 
